@@ -156,7 +156,7 @@ pub fn mapped_bytes(path: &PathBuf) -> usize {
 pub fn record_mmap(seed: u64, thorough: bool, path: &str) -> Value {
     let mut rng = Rng::new(seed);
     let mut out = TraceOut::new();
-    let mut sizes: Vec<usize> = vec![0, 8, 16, 4088, 4096, 4104, 8192, 12288, 65536, (1 << 20) + 8, 7, 4095, 12];
+    let mut sizes: Vec<usize> = vec![0, 8, 16, 4088, 4096, 4104, 8192, 12288, 65536, (1 << 20) + 8, 7, 4095, 12, (1 << 21) + 8, 1 << 21, (1 << 21) + 4096 + 16];     // incl. just above the size of a huge page
     if thorough { sizes.extend([24, 4080, 4112, 40960, (1 << 22), (1 << 22) + 4096, 3, 100]); }
     let mut events = 0usize;
     // a missing file
